@@ -138,8 +138,18 @@ CLAIMED["C11"] = (
     "structural reading).",
     _NOTE, "DESIGN.md section 5, C11")
 
+CLAIMED["C12"] = (
+    "ownership rule over every CommonSubexpression construction site with the "
+    "path conditions that dominate it; table/sibling rules for the normalised "
+    "key; look-aside path rule on the CSE caching mix-in; MRO rule for every "
+    "mapper that uses the mix-in",
+    "Partial: 'no wrapper directly around a wrapper', key sharing, and "
+    "once-per-evaluation are decided structurally for all inputs; that tagging "
+    "finds every repeat and preserves value is declined.",
+    _NOTE, "DESIGN.md section 5, C12")
+
 for _p in ["C02", "C03", "C10",
-           "C12", "C15", "C16", "C19"]:
+           "C15", "C16", "C19"]:
     NOT_APPLICABLE[_p] = ("check under construction in this revision (see "
                           "DESIGN.md for the planned static rule)")
 NOT_APPLICABLE["C18"] = (
